@@ -62,6 +62,8 @@ class Prop(object):
         if tier == 'thorough':
             u.append(('bodies', {'comp': 'ZIP', 'fmt': 'b', 'seed': seed, 'big': 4 << 20}))
         u.append(('kdf', {}))
+        for rc in ('rsa2048', 'cv25519', 'ecdh-p256', 'pass'):
+            u.append(('sessionkeys', {'recip': rc}))
         u.append(('gpg', {}))
         return u
 
@@ -390,6 +392,27 @@ class Prop(object):
             if oc != 'ok':
                 r.viol('foreign', dict(tags, stage='pgpy-decrypt-foreign', kind=oc, variant='+'.join(sorted(variant)) or 'plain'), case,
                        '%s (recipient %s): %s' % (label, rc, '; '.join(probs)))
+
+    def c_sessionkeys(self, case):
+        """Caller-supplied session keys of particular shapes: all zero, octet sums of 16, 120, 255 and 256 (the two-octet checksum of RFC 4880 5.1 with a zero
+        high octet), leading and trailing zero octets, all 0xFF."""
+        from pgpy.constants import SymmetricKeyAlgorithm
+        r = Res()
+        rc = case['recip']
+        for cipher in ('AES128', 'AES256', 'CAST5', 'TripleDES'):
+            n = SymmetricKeyAlgorithm[cipher].key_size // 8
+            shapes = [('zero', bytes(n)), ('ones', b'\x01' * n), ('counter', bytes(range(n))), ('sum255', bytes(n - 1) + b'\xff'), ('sum256', bytes(n - 2) + b'\x01\xff'),
+                      ('lead-zero', b'\x00\x00' + bytes(range(7, 5 + n))), ('trail-zero', bytes(range(9, 7 + n)) + b'\x00\x00'), ('ff', b'\xff' * n)]
+            for sname, sk in shapes:
+                key = '%s/%s' % (cipher, sname)
+                if case.get('only') and key != case['only']:
+                    continue
+                m = self._mk(b'supplied session key', 'b', 'Uncompressed')
+                self._native(r, m, [rc], cipher, {'part': 'sessionkeys', 'shape': sname}, dict(case, only=key),
+                             'recipient %s, cipher %s, supplied session key %s (octet sum %d)' % (rc, cipher, sname, sum(sk)), sessionkey=sk)
+        r.dim('recipient', rc)
+        r.samples.append(dict(case))
+        return r
 
     def c_kdf(self, case):
         """ECDH recipients whose key carries KDF parameters (RFC 6637 section 9) other than the per-curve defaults, both directions."""
